@@ -285,6 +285,13 @@ Fixpoint run (c : cfg) (s : st) (ops : list op) : st * list (option Z) :=
   | o :: t => let '(s1, r) := step c s o in let '(s2, rs) := run c s1 t in (s2, r :: rs)
   end.
 
+(* a history during which the configuration / the fault of the incident handling changes: segments *)
+Fixpoint run_segs (s : st) (segs : list (cfg * list op)) : st :=
+  match segs with
+  | [] => s
+  | (c, ops) :: t => run_segs (fst (run c s ops)) t
+  end.
+
 Definition is_auto (o : op) : bool :=
   match o with Msg None _ _ _ _ _ => true | MsgBad _ _ => true | _ => false end.
 
